@@ -507,6 +507,79 @@ func C10(c *core.Ctx) {
 		c.Decide(okDel, "R10.3", "completed-message-removed", p.Pos(reas.Pos()), "a reassembled message is deleted from the partial-message store before it is returned", "a completed message stays in the partial-message store: a later message reusing the sequence number is corrupted and memory grows")
 	}
 
+	// ---- R10.9 the number of fragments is not "quotient + 1": len/size + 1 pieces of at
+	// most size bytes include an EMPTY last piece whenever size divides len — the receiver
+	// drops an empty fragment as IDLE and never completes the message. (Only this known-wrong
+	// form is reported; that any other expression equals ceil(len/size) is arithmetic and
+	// not decided.)
+	{
+		nCnt := 0
+		core.InstrsDeep(send, func(in ssa.Instruction) {
+			ms, ok := in.(*ssa.MakeSlice)
+			if !ok || !strings.Contains(ms.Type().String(), "LpPacket") {
+				return
+			}
+			nCnt++
+			v := core.StripConv(ms.Len)
+			bad := false
+			if b, isB := v.(*ssa.BinOp); isB && b.Op == token.ADD {
+				for _, pair := range [][2]ssa.Value{{b.X, b.Y}, {b.Y, b.X}} {
+					q, isQ := core.StripConv(pair[0]).(*ssa.BinOp)
+					k, isK := core.ConstInt(pair[1])
+					if isQ && q.Op == token.QUO && isK && k == 1 {
+						// the numerator is the plain length (no +size-1 / -1 adjustment)
+						if _, adj := core.StripConv(q.X).(*ssa.BinOp); !adj {
+							bad = true
+						}
+					}
+				}
+			}
+			c.Decide(!bad, "R10.9", fmt.Sprintf("fragment-count-not-floor-plus-one#%d", nCnt), c.Pos(in), "the fragment list is not sized len/size + 1", "the number of fragments is computed as len/size + 1: when the payload room divides the packet length exactly, an extra EMPTY fragment is sent; the receiver discards it as IDLE and the message never completes")
+		})
+		c.Floor("R10.9", "fragment lists allocated on the send path", nCnt, 1)
+		// the same mistake on the other side: a remainder len % size used as the size of the
+		// last piece without a test for 0 (the remainder of an exact multiple is 0, the
+		// piece has `size` bytes)
+		core.InstrsDeep(send, func(in ssa.Instruction) {
+			b, ok := in.(*ssa.BinOp)
+			if !ok || b.Op != token.REM {
+				return
+			}
+			if _, isLen := core.LenOf(core.StripConv(b.X)); !isLen {
+				return
+			}
+			tested, sized := false, false
+			var visit func(v ssa.Value, d int)
+			visit = func(v ssa.Value, d int) {
+				if d > 4 {
+					return
+				}
+				for _, r := range core.Refs(v) {
+					switch x := r.(type) {
+					case *ssa.BinOp:
+						if k, isC := core.ConstInt(x.Y); isC && k == 0 && (x.Op == token.EQL || x.Op == token.NEQ || x.Op == token.GTR) {
+							tested = true
+						}
+					case *ssa.Phi:
+						visit(x, d+1)
+					case *ssa.Convert:
+						visit(x, d+1)
+					case ssa.CallInstruction:
+						if id, okID := core.Callee(x.Common()); okID && (id.Name == "ReadWire" || id.Name == "ReadBuf") {
+							sized = true
+						}
+					case *ssa.Slice:
+						sized = true
+					}
+				}
+			}
+			visit(b, 0)
+			if sized {
+				c.Decide(tested, "R10.9", "last-piece-size-not-bare-remainder", c.Pos(in), "a remainder used as a piece size is tested against 0", "the size of the last fragment is len % size without a test for 0: when the payload room divides the packet length exactly the last fragment is empty and the bytes it should carry are never sent")
+			}
+		})
+	}
+
 	// ---- R10.8 a message is handed up only after every slot of the stored message was
 	// looked at: the "is this slot still empty" tests sit in loops that visit every index of
 	// the slot list (a scan that skips slot 0 or the last slot declares a message complete
